@@ -21,6 +21,7 @@ import (
 	"go/types"
 	"os"
 	"path/filepath"
+	"regexp"
 	"sort"
 	"strconv"
 	"strings"
@@ -807,7 +808,44 @@ func header(w *bytes.Buffer, src string) {
 	w.WriteString("From Coq Require Import NArith ZArith String List.\nImport ListNotations.\nOpen Scope string_scope.\n\n")
 }
 
+// pinned: definitions the hand-written development refers to by name
+// (tools/pin_consts.py). A name that /repo no longer has (a constant renamed or
+// inlined by a refactoring) is emitted with its pinned text, so that the
+// development still compiles, and reported in unreadable.txt: for that constant
+// the tie is the correspondence check alone.
+var pinnedPath string
+var definitionRe = regexp.MustCompile(`(?m)^Definition (\w+) `)
+
+func withPinned(file string, content []byte) []byte {
+	data, err := os.ReadFile(pinnedPath)
+	if err != nil {
+		return content
+	}
+	have := map[string]bool{}
+	for _, m := range definitionRe.FindAllSubmatch(content, -1) {
+		have[string(m[1])] = true
+	}
+	var extra bytes.Buffer
+	for _, line := range strings.Split(string(data), "\n") {
+		f := strings.SplitN(line, "\t", 3)
+		if len(f) != 3 || f[0] != file || have[f[1]] {
+			continue
+		}
+		fmt.Fprintf(&extra, "\n(* not found in /repo under this name on this run; pinned definition *)\n%s\n", f[2])
+		if strings.HasSuffix(f[1], "_nat") {
+			if i := strings.Index(f[1], "_"); i > 0 {
+				fmt.Fprintf(&extra, "#[global] Hint Unfold %s : %s_consts.\n", f[1], f[1][:i])
+			}
+		}
+		unreadableIn[file] = append(unreadableIn[file], f[1]+"\tno declaration of this name in the source; the pinned value is used")
+	}
+	return append(content, extra.Bytes()...)
+}
+
+var unreadableIn = map[string][]string{} // Gen file -> "item<TAB>why"
+
 func writeIfChanged(path string, content []byte) error {
+	content = withPinned(filepath.Base(path), content)
 	old, err := os.ReadFile(path)
 	if err == nil && bytes.Equal(old, content) {
 		return nil
@@ -876,8 +914,9 @@ func fieldTypes(fl *ast.FieldList) []ast.Expr {
 // roleFunc finds the function that plays a role for the message type *pb.T, by
 // its name when it still has the expected one, else by its signature (so that
 // renaming an unexported function is not a translation failure):
-//   parse: func([]byte) (*pb.T, ..., error)    check: func(*pb.T) error
-//   ser:   func(*pb.T) ([]byte, error)
+//
+//	parse: func([]byte) (*pb.T, ..., error)    check: func(*pb.T) error
+//	ser:   func(*pb.T) ([]byte, error)
 var canon = map[string]string{}
 
 // canonName maps the current name of a function found by its signature back to
@@ -923,6 +962,8 @@ func roleFunc(p *pkgInfo, name, role, msg string) *ast.FuncDecl {
 }
 
 func main() {
+	exe, _ := os.Executable()
+	flag.StringVar(&pinnedPath, "pinned", filepath.Join(filepath.Dir(exe), "pinned.txt"), "pinned definitions")
 	root := flag.String("repo", "/repo", "repository root")
 	out := flag.String("out", "", "output directory (coq/Gen)")
 	flag.Parse()
@@ -1013,10 +1054,20 @@ func main() {
 	sort.Strings(names)
 	for _, n := range names {
 		for _, why := range unreadable[n] {
-			fmt.Fprintf(&ur, "%s\t%s\n", n, why)
+			fmt.Fprintf(&ur, "AbiTables.v\t%s\t%s\n", n, why)
 		}
 	}
-	must(writeIfChanged(filepath.Join(*out, "unreadable.txt"), ur.Bytes()))
+	var files []string
+	for f := range unreadableIn {
+		files = append(files, f)
+	}
+	sort.Strings(files)
+	for _, f := range files {
+		for _, l := range unreadableIn[f] {
+			fmt.Fprintf(&ur, "%s\t%s\n", f, l)
+		}
+	}
+	must(os.WriteFile(filepath.Join(*out, "unreadable.txt"), ur.Bytes(), 0o644))
 
 	// ---- write sites -------------------------------------------------------
 	var ws bytes.Buffer
